@@ -465,11 +465,14 @@ class Monitor(object):
         bad = getattr(self, '_bad_updates', None)
         if bad is None:
             pool = dict(SG.message_pool(self.cfg['remote_as']))
-            bad = self._bad_updates = {pool[k]: k for k in ('update_origin_len0', 'update_nexthop_len0', 'update_attr_header_cut')}
+            bad = self._bad_updates = {pool[k]: k for k in ('update_origin_len0', 'update_nexthop_len0', 'update_attr_header_cut', 'update_aggregator8_aspath2')}
         if b not in bad:
             return
         if any(o[0] == 'handler' and o[1] == 'update' for o in outs):
             self.fail('C10', 'a malformed UPDATE (%s) was handed to the application as a decoded message' % bad[b], 'malformed-as-good')
+            if bad[b] == 'update_aggregator8_aspath2':
+                self.fail('C05', 'an AGGREGATOR with a 4-octet AS number was accepted next to an AS_PATH with 2-octet numbers: the AS '
+                                 'width of a session is one (4 octets iff both OPENs carried capability 65)', 'as-width')
 
     def check_as_width(self, ev, b, outs, sim):
         """C05: AS numbers in AS_PATH are 4 octets wide on this connection iff both OPENs carried capability 65.
